@@ -12,8 +12,9 @@
 
   Lines are the lines of the *cleaned* text.  `update_record_buffer` extends a view inside
   the cleaned buffer, so the record buffer contains the `'\n'` of every line it spans,
-  including skipped empty lines (`gap`).  TITLE, code keywords (PYINPUT, DYNAMICR) and
-  SKIP/ENDSKIP are not modelled here.
+  including skipped empty lines (`gap`).  TITLE and SKIP/ENDSKIP between keywords are in
+  `Model/Deck.lean`; code keywords (PYINPUT, DYNAMICR) and a SKIP block *inside* the records
+  of a keyword (the skipped text becomes part of the record view) are not modelled.
 
   Core Lean only.
 -/
@@ -101,16 +102,28 @@ def feedLine (recog : Bytes → Bool) (k : Kw) (buf gap line : Bytes) : Step :=
   else if k.canComplete && recog (makeDeckName line) then .done k.terminate true
   else afterExtend k (extendBuf buf gap (delAfterSlash k.raw line 10))
 
+/-- End-of-file marker in the flat list of input lines (second round).  The input stack of
+the C++ is modelled as one list of cleaned lines; where an INCLUDE file ends, the marker
+stands between its last line and the lines of the including file.  No cleaned line can
+equal it (a line holds no '\n').  `ParserState::done()` pops the exhausted file; since fix
+d37f2f297 `tryParseKeyword` throws ("Input file ended inside a record.") when that happens
+while the record buffer is not empty — the buffer is a view into the closed file's text and
+`update_record_buffer` would otherwise measure a distance between two buffers. -/
+def eofMark : Bytes := [10]
+
 /-- the loop; result: the raw keyword and the lines not consumed (`none`: exception). -/
 def feedLines (recog : Bytes → Bool) : Kw → Bytes → Bytes → List Bytes → Option (Kw × List Bytes)
   | k, _, _, [] =>
     let k' := if k.canComplete then k.terminate else k
     if k'.finished then some (k', []) else none
   | k, buf, gap, line :: rest =>
-    match feedLine recog k buf gap line with
-    | .cont k' buf' gap' => feedLines recog k' buf' gap' rest
-    | .done k' unget => some (k', if unget then line :: rest else rest)
-    | .err => none
+    if line = eofMark then
+      (if buf.isEmpty then feedLines recog k buf gap rest else none)
+    else
+      match feedLine recog k buf gap line with
+      | .cont k' buf' gap' => feedLines recog k' buf' gap' rest
+      | .done k' unget => some (k', if unget then line :: rest else rest)
+      | .err => none
 
 /-- `ParserKeyword::getRecord(i)`. -/
 def schemaOf (schemas : List (List Item)) (alternating : Bool) (i : Nat) : Option (List Item) :=
